@@ -29,8 +29,10 @@ from typing import Any
 
 ROOT = Path(__file__).resolve().parent.parent
 WORK = ROOT / ".work"
-EVIDENCE = ROOT / "evidence"
-REPLAYS = ROOT / "replays"
+# (the two overrides exist for tools/run_seeded.py, so that runs against a deliberately broken tree never touch the
+#  evidence that the registered commands write)
+EVIDENCE = Path(os.environ["VERIF_EVIDENCE_DIR"]) if os.environ.get("VERIF_EVIDENCE_DIR") else ROOT / "evidence"
+REPLAYS = Path(os.environ["VERIF_REPLAY_DIR"]) if os.environ.get("VERIF_REPLAY_DIR") else ROOT / "replays"
 KNOWN = ROOT / "known_findings.json"
 PY = "/venv/bin/python"
 NPROC = int(os.environ.get("VERIF_JOBS", "16"))
@@ -248,7 +250,7 @@ def _worker_main(modname: str, spec_path: str, out_path: str) -> None:
 
 
 def write_evidence(prop: str, ev: dict) -> None:
-    EVIDENCE.mkdir(exist_ok=True)
+    EVIDENCE.mkdir(parents=True, exist_ok=True)
     (EVIDENCE / f"{prop}.json").write_text(json.dumps(ev, indent=1, sort_keys=True) + "\n")
 
 
@@ -256,6 +258,8 @@ def drive(modname: str, tier: str, seed: int, replay_path: str | None = None) ->
     from . import repoenv
 
     t0 = time.time()
+    if os.environ.get("VERIF_REPO"):
+        sys.path.insert(0, os.environ["VERIF_REPO"])   # the tree under test also for anything the parent imports
     mod = importlib.import_module(f"vt.checks.{modname}")
     prop = mod.PROPERTY
     repoenv.ensure(getattr(mod, "NEEDS", ()))
